@@ -68,6 +68,10 @@ func main() {
 		set, in = streams.Adm("c12", *seed, *n, "pf12", []string{"namespace"})
 	case "c18adm":
 		set, in = streams.Adm("c18adm", *seed, *n, "pf18", []string{"pod", "controller", "namespace"})
+	case "c13":
+		set, in = streams.C13(*seed, *n)
+	case "c14":
+		set, in = streams.C14(*seed, *n)
 	case "c20":
 		set, in = streams.C20(*seed, *n)
 	case "admall":
